@@ -148,10 +148,39 @@ def documentedConcurrencySafe : List String := [
   "invoke error.Error", "invoke http.ResponseWriter.Header", "invoke http.ResponseWriter.Write",
   "invoke http.ResponseWriter.WriteHeader"]
 
-/-- every library call that serving makes on definitely-shared objects is on the documented list; a new
-    one (say a shared `bytes.Buffer`) breaks the build until it is justified -/
-theorem library_calls_documented : ∀ c ∈ libraryCallsOnShared, c.callee ∈ documentedConcurrencySafe := by
+/-- Library code that is safe on shared arguments as a whole family: read-only inspection through `reflect.Type` /
+    `reflect.Value` (type descriptors are immutable; `Value` getters do not write), and the pure functions of
+    `strings`, `bytes`, `strconv`, `unicode`, `path`, `net/url`, `sort.Search…`, `errors`, `fmt.Sprint…`, which only
+    read their arguments.  A behaviour-preserving refactoring is free to use any of them; stateful library objects
+    (`bytes.Buffer`, `sync.Pool`, `sync.Map`, `strings.Builder`, `sync.Mutex` …) are NOT here: a shared one has to be
+    justified by name in `documentedConcurrencySafe`. -/
+def safeFamilies : List String := [
+  "invoke reflect.Type.", "(reflect.Value).Is", "(reflect.Value).Can", "(reflect.Value).Num", "(reflect.Value).Len",
+  "(reflect.Value).Field", "(reflect.Value).Index", "(reflect.Value).Interface", "(reflect.Value).Uint",
+  "(reflect.Value).Float", "(reflect.Value).Bool", "(reflect.Value).MapIndex", "(reflect.Value).Cap",
+  "reflect.TypeOf", "reflect.ValueOf", "reflect.Zero", "reflect.Indirect", "reflect.DeepEqual",
+  "strings.", "bytes.Index", "bytes.LastIndex", "bytes.Contains", "bytes.Equal", "bytes.HasPrefix", "bytes.HasSuffix",
+  "bytes.Trim", "bytes.Split", "bytes.Count", "bytes.Compare", "bytes.ReplaceAll", "bytes.Fields", "bytes.ToLower", "bytes.ToUpper",
+  "strconv.", "unicode.", "unicode/utf8.", "path.", "path/filepath.Clean", "path/filepath.Join", "path/filepath.Base",
+  "net/url.PathEscape", "net/url.PathUnescape", "net/url.QueryEscape", "net/url.QueryUnescape", "net/url.ParseQuery",
+  "sort.Search", "errors.", "fmt.Sprint", "fmt.Errorf", "net/http.StatusText", "net/http.CanonicalHeaderKey",
+  "(net/http.Header).Get", "(net/http.Header).Values", "net/textproto.CanonicalMIMEHeaderKey"]
+
+def callPrefix (p s : String) : Bool := p.toUTF8.data.toList.isPrefixOf s.toUTF8.data.toList
+
+def callIsSafe (callee : String) : Bool :=
+  documentedConcurrencySafe.contains callee || safeFamilies.any (fun p => callPrefix p callee)
+
+/-- every library call that serving makes on definitely-shared objects is documented as safe for concurrent use — by
+    name, or as a member of a read-only family; a new stateful one (say a shared `bytes.Buffer` or `sync.Pool`)
+    breaks the build until it is justified -/
+theorem library_calls_documented : ∀ c ∈ libraryCallsOnShared, callIsSafe c.callee = true := by
   decide
+
+/-- … and the families do not let the stateful ones in -/
+example : callIsSafe "(*bytes.Buffer).WriteString" = false ∧ callIsSafe "(*sync.Pool).Get" = false ∧
+    callIsSafe "(*sync.Map).Store" = false ∧ callIsSafe "(*strings.Builder).WriteString" = false ∧
+    callIsSafe "(*sync.Pool).Put" = false ∧ callIsSafe "invoke reflect.Type.Kind" = true := by decide
 
 /-! ## (iii) isolation: every interleaving is serial for every request -/
 
